@@ -203,6 +203,9 @@ fn build(tier: Tier) -> Vec<Scenario> {
             }),
         ));
     }
+    if tier == Tier::Quick {
+        crate::props::common::deepen(&mut out, &|n| n.contains("/[Map,Hop,Filter]/n5/") || n.contains("/[Hop,FlatMap,Hop,FlatMap,Hop,Map]/n5/Adaptive"));
+    }
     out
 }
 
